@@ -128,7 +128,18 @@ theorem block_ok (src R : List UInt8) (v : Verif) :
   have h4 : (chunksBytes src ++ 0 :: (padList ((chunksBytes src).length + 13) ++ (le32 (crc32 src) ++ R))).length + 1 + 1 + 1 + 1 + 1 + 1 + 1 + 1 + 1 + 1 + 1 -
       ((chunksBytes src ++ 0 :: (padList ((chunksBytes src).length + 13) ++ (le32 (crc32 src) ++ R))).length + 1 + 1 + 1 + 1 + 1 + 1 + 1) = 4 := by omega
   simp only [h4, show ¬ (4 > 7) by omega, if_false, show 7 - 4 = 3 by rfl, hz3, List.take, hcrc, hl2]
-  trace_state
-  sorry
+  have hcs : (chunksBytes src ++ 0 :: (padList ((chunksBytes src).length + 13) ++ (le32 (crc32 src) ++ R))).length -
+      (padList ((chunksBytes src).length + 13) ++ (le32 (crc32 src) ++ R)).length = (chunksBytes src).length + 1 := by
+    simp only [List.length_append, List.length_cons]; omega
+  have hsz : (pushList #[] src).size = src.length := by rw [pushList_size]; simp
+  have htl : (pushList #[] src).toList = src := by rw [pushList_toList]; simp
+  have hzp := zeros_ok ((4 - ((chunksBytes src).length + 13) % 4) % 4) (le32 (crc32 src) ++ R) "#bad padding"
+    (#[] ++ pushList #[] src)
+  simp only [hcs, hsz, htl, hpad, Option.isSome_none, Bool.false_eq_true, false_and, or_self, if_false]
+  unfold padList
+  rw [hzp]
+  simp only [checkU32_ok]
+  have : 12 + ((chunksBytes src).length + 1) + 4 = (chunksBytes src).length + 17 := by omega
+  rw [this]
 
 end WuffsVerif.WXz
